@@ -131,6 +131,9 @@ structure St where
   epoch : Nat := 0
   next : Option (TEvent × EvData × String) := none
   stopped : Bool := false
+  /-- `self.persistent` as far as `FSM.stop()` is concerned: switched off by the stop (the state without its timer
+      must not replace what the simulator saved before it stopped the blocks) -/
+  persistOn : Bool := true
   failed : Option ErrKind := none
   /-- the value of the context variable `fsm_event_data` in the running context -/
   ctx : EvData := {}
@@ -411,7 +414,7 @@ def popTimer (s : St) (h : Handle) : St :=
     state := s.state, out := s.out, input := s.input, gate := s.gate
     active := none
     timers := s.timers.filter (fun x => x.id != h.id)
-    nextId := s.nextId, epoch := s.epoch, next := s.next, stopped := s.stopped, failed := s.failed
+    nextId := s.nextId, epoch := s.epoch, next := s.next, stopped := s.stopped, persistOn := s.persistOn, failed := s.failed
     ctx := s.ctx
     log := s.log ++ [(if s.now < h.when then h.when else s.now, .fire h s.epoch s.state)] }
 
@@ -471,7 +474,7 @@ inductive Op where
   deriving Repr, Inhabited
 
 /-- `FSM.stop()` -/
-def stop (s : St) : St := { stopTimer s with stopped := true }
+def stop (s : St) : St := { stopTimer s with stopped := true, persistOn := false }
 
 /-- initialisation by `init_from_value(initdef)` = `Goto(initdef)` -/
 def initOp (c : Cfg) (s : St) : St × Res :=
